@@ -45,6 +45,9 @@ type Heap struct {
 }
 
 func (h *Heap) get(region, sort string) string {
+	if regionSortSink != nil {
+		regionSortSink[region] = sort
+	}
 	if t, ok := h.regs[region]; ok {
 		return t
 	}
@@ -53,7 +56,18 @@ func (h *Heap) get(region, sort string) string {
 	return t
 }
 
-func (h *Heap) set(region, term string) { h.regs[region] = term }
+func (h *Heap) set(region, term string) {
+	if heapNamer != nil && len(term) > 64 {
+		term = heapNamer(region, term)
+	}
+	h.regs[region] = term
+}
+
+// heapNamer (set per function context) introduces a named constant for a large heap term.
+var heapNamer func(region, term string) string
+
+// regionSortSink records the SMT sort of every region touched (per function context).
+var regionSortSink map[string]string
 
 func (h *Heap) clone() *Heap {
 	n := &Heap{regs: map[string]string{}, id: h.id}
@@ -124,6 +138,10 @@ type FnCtx struct {
 	order      []*ssa.BasicBlock
 	posText    map[token.Pos]string
 	cur        *ssa.BasicBlock
+	curIdx     int
+	curInstr   ssa.Instruction
+	regionSorts map[string]string
+	reachM     map[int]map[int]bool
 	curReach   string
 	heap       *Heap
 	ghost      map[string]string
@@ -252,6 +270,25 @@ func splitGoal(t string) []string {
 				out = append(out, implies(args[0], c))
 			}
 			return out
+		}
+	}
+	if strings.HasPrefix(t, "(forall ") {
+		args := sexprArgs(t)
+		if len(args) == 2 {
+			body := args[1]
+			if strings.HasPrefix(body, "(! ") {
+				if ba := sexprArgs(body); len(ba) >= 1 {
+					body = ba[0]
+				}
+			}
+			parts := splitGoal(body)
+			if len(parts) > 1 {
+				var out []string
+				for _, c := range parts {
+					out = append(out, "(forall "+args[0]+" "+c+")")
+				}
+				return out
+			}
 		}
 	}
 	return []string{t}
